@@ -10,11 +10,11 @@ SPEC = dict(
     coq_targets=["props/C23.vo"], model_targets=["models/SyncTree.vo"],
     drivers=[
         dict(name="syncdir", kind="main", pkg="./zzverif/c23",
-             n=dict(quick=200, thorough=1500), timeout=dict(quick=300, thorough=1500),
+             n=dict(quick=200, thorough=1000), timeout=dict(quick=300, thorough=1500),
              ev=dict(requires=["V.lib.Bytes", "V.models.SyncDir"], case_type="SyncDir.case",
                      mismatch="SyncDir.mismatch", monitor="SyncDir.monitor_fail")),
         dict(name="synctree", kind="main", pkg="./zzverif/c23", env=dict(VERIF_C23_MODE="tree"),
-             n=dict(quick=100, thorough=800), timeout=dict(quick=300, thorough=1500),
+             n=dict(quick=100, thorough=600), timeout=dict(quick=300, thorough=1500),
              ev=dict(requires=["V.lib.Bytes", "V.models.SyncDir", "V.models.SyncTree"], case_type="SyncTree.case",
                      mismatch="SyncTree.mismatch", monitor="SyncTree.monitor_fail")),
     ],
